@@ -308,9 +308,8 @@ def check_text(ctx, desc, rows, kinds, dc, opts, case, route='direct'):
     per_row = []
     for r in rows:
         if expand:
-            n = max((len(v.get_positions()) for v, k in zip(r, kinds) if k == 'inventory' and v is not None), default=None)
-            if n is None:
-                n = 1
+            # every cell that is not a (non-NULL) inventory takes one line; a row made of empty inventories only takes none or one
+            n = max((len(v.get_positions()) if (k == 'inventory' and v is not None) else 1) for v, k in zip(r, kinds))
         else:
             n = 1
         per_row.append(n)
@@ -447,9 +446,7 @@ def check_csv(ctx, desc, rows, kinds, dc, opts, case, text_cells=None, route='di
     for r in rows:
         n = 1
         if expand:
-            ns = [len(v.get_positions()) for v, k in zip(r, kinds) if k == 'inventory' and v is not None]
-            if ns:
-                n = max(ns)
+            n = max((len(v.get_positions()) if (k == 'inventory' and v is not None) else 1) for v, k in zip(r, kinds))
         per_row.append(n)
     flexible = sum(1 for n in per_row if n == 0)
     total = sum(per_row)
